@@ -17,7 +17,8 @@ package main
 //                   s non-string result | x non-hex block | y truncated block | n block that does not link
 //   cancel   `-` | d<k> (inside the consumer, right after k deliveries; d0 = before the call) |
 //            q<k> (by the controller at its k-th quiescent point)
-//   choices  `-` or i.j.k… index into the enabled actions at each quiescent point (0 when exhausted)
+//   choices  `-` or i.j.k… index into the enabled actions at each quiescent point (0 when exhausted), or
+//            L<k>: release the getblock response of height from+k as late as possible (everything else first)
 //   events   `*` (not recorded) or tokens joined by `,`:
 //            q<k>h q<k>b  request seen by the transport      r<k>h:o|e  r<k>b:o|e|n  response released
 //            d<k> block from+k delivered   end   err   c (cancel)   uo / ue (UpdateUtxos returned nil / error)
@@ -201,6 +202,7 @@ type strmSpec struct {
 	fstr    string
 	cancel  string
 	choices []int
+	late    int        // >= 0: policy L<k>
 	rnd     *rand.Rand // random choices instead of the list (child-side random batches)
 }
 
@@ -208,7 +210,7 @@ func strmParseSpec(f []string) (*strmSpec, error) {
 	if len(f) < 9 {
 		return nil, errors.New("spec needs 9 fields")
 	}
-	s := &strmSpec{mode: f[0], faults: map[string]byte{}, fstr: f[6], cancel: f[7]}
+	s := &strmSpec{mode: f[0], faults: map[string]byte{}, fstr: f[6], cancel: f[7], late: -1}
 	if s.mode != "o" && s.mode != "u" && s.mode != "x" {
 		return nil, errors.New("mode")
 	}
@@ -229,7 +231,13 @@ func strmParseSpec(f []string) (*strmSpec, error) {
 			s.faults[kv[0]] = kv[1][0]
 		}
 	}
-	if f[8] != "-" {
+	if strings.HasPrefix(f[8], "L") {
+		v, err := strconv.Atoi(f[8][1:])
+		if err != nil || v < 0 {
+			return nil, errors.New("late")
+		}
+		s.late = v
+	} else if f[8] != "-" {
 		for _, it := range strings.Split(f[8], ".") {
 			v, err := strconv.Atoi(it)
 			if err != nil || v < 0 {
@@ -243,7 +251,9 @@ func strmParseSpec(f []string) (*strmSpec, error) {
 
 func (s *strmSpec) fields(choices []int) []string {
 	ch := "-"
-	if len(choices) > 0 {
+	if s.late >= 0 {
+		ch = fmt.Sprintf("L%d", s.late)
+	} else if len(choices) > 0 {
 		parts := make([]string, len(choices))
 		for i, v := range choices {
 			parts[i] = strconv.Itoa(v)
@@ -635,7 +645,14 @@ func strmRunOne(s *strmSpec) *strmOutcome {
 		}
 		pick := 0
 		if nEnabled > 1 {
-			if s.rnd != nil {
+			if s.late >= 0 {
+				for pick < len(parked) && parked[pick].kind == 'b' && parked[pick].k == s.late {
+					pick++
+				}
+				if pick >= nEnabled {
+					pick = 0
+				}
+			} else if s.rnd != nil {
 				pick = s.rnd.Intn(nEnabled)
 			} else if len(out.choices) < len(s.choices) {
 				pick = s.choices[len(out.choices)] % nEnabled
@@ -1187,6 +1204,22 @@ func runC16(r *Runner) string {
 	}
 	r.strmBatch(cmds, "exhaustive release orders (small configurations)", 1)
 
+	// 2b. directed: the block of height from+1 completes last, so that its successors wait in the ordering
+	// buffer and are released in one drain; cancellation at every delivery point of that drain
+	cmds = nil
+	for _, mode := range []string{"o", "x"} {
+		for p := 2; p <= 4; p++ {
+			for n := p + 1; n <= 8; n += 2 {
+				for d := 1; d <= 4 && d <= n; d++ {
+					for rep := 0; rep < r.N(3, 12); rep++ {
+						cmds = append(cmds, fmt.Sprintf("run %s %d %d %d 0 %d - d%d L1", mode, 200+rep, n, p, seedBase+int64(n), d))
+					}
+				}
+			}
+		}
+	}
+	r.strmBatch(cmds, "directed: predecessor completes last, cancel inside the drain", 1)
+
 	// 3. seeded random schedules of larger configurations
 	cmds = nil
 	total := r.N(2400, 30000)
@@ -1229,7 +1262,8 @@ func runC16(r *Runner) string {
 		"request position, cancellation point, release-order choices). Exhaustive part: depth-first enumeration of every release order for " +
 		"n<=3, p<=2 (quick tier: for n=3 only the plans with <=1 fault and no cancel), every plan of <=2 faults (one error kind per position, rotated over transport error / RPC error / " +
 		"401 / null body / non-string / non-hex / truncated block, plus non-linking block) and cancellation at every delivery point; a separate sweep " +
-		"puts every concrete fault kind at every position. Random part: n<=8, p<=4, half of it with GOMAXPROCS=4. A case is distinct when its spec " +
+		"puts every concrete fault kind at every position. Directed part: the block of the second height completes last (policy L1), so its " +
+		"successors are released from the ordering buffer in one drain, with cancellation at every delivery point of the drain. Random part: n<=8, p<=4, half of it with GOMAXPROCS=4. A case is distinct when its spec " +
 		"and observed event trace differ; every trace is checked by the Go-side oracles (order, exactly-once, completeness, fault => error, " +
 		"cancel => error or complete scan, UTXO set = sequential fold, no deadlock, no panic) and must be a trace of the Lean transition system."
 }
